@@ -191,7 +191,8 @@ Definition cpp_tail (alloc vla_inc : str) (fl : flag -> bool) : list str :=
 Record lang_cfg := {
   lc_sid : str -> str -> str;
   lc_stropping : bool;
-  lc_ext : str;
+  lc_ext : str;                                    (* extension the include side passes (filter_includes: language.extension) *)
+  lc_out_ext : str;                                (* extension the output side passes (build_namespace_tree -> _add_data_type) *)
   lc_inc_short_idt : str; lc_inc_ns_idt : str;     (* id types used by the path function the include side calls *)
   lc_out_short_idt : str; lc_out_ns_idt : str;     (* id types used by the path function the output side calls *)
   lc_dir_idt : str;                                (* Namespace.__init__ *)
@@ -210,7 +211,7 @@ Definition punct (l : lang_cfg) (p : str) : str := if lc_prefer_system l then an
 Definition inc_path (l : lang_cfg) (t : tyid) : str :=
   posix (make_path (lc_sid l) (lc_stropping l) (lc_inc_short_idt l) (lc_inc_ns_idt l) (lc_ext l) t).
 Definition out_path (l : lang_cfg) (t : tyid) : str :=
-  posix (make_path (lc_sid l) (lc_stropping l) (lc_out_short_idt l) (lc_out_ns_idt l) (lc_ext l) t).
+  posix (make_path (lc_sid l) (lc_stropping l) (lc_out_short_idt l) (lc_out_ns_idt l) (lc_out_ext l) t).
 
 Definition support_includes (l : lang_cfg) : list str :=
   map (fun n => posix (support_inc_path (lc_support_ns l) (lc_ext l) n)) (lc_support_files l).
